@@ -198,6 +198,10 @@ INI_HOSTILE = [
     b'a=' + b'${a}' * 1200, b'a=1\nb=' + b'${a}' * 999, b'a=1\nb=' + b'${a}' * 1000, b'a=1\nb=' + b'${a}' * 1001,
     b'a=' + b'x' * 5000 + b'\nb=${a}${a}${a}\nc=${b}${b}${b}', b'\n\n\n', b' \t\r\n \t', b'a=b=c=d', b'${a}=${a}\n${a}=1\nb=${${a}}',
 ]
+# referenced names of every length around the sizes a fixed name buffer would have: defined, undefined, environment, section-qualified
+for _L in [30, 31, 32, 33, 62, 63, 64, 65, 126, 127, 128, 129] + list(range(250, 262)) + [510, 511, 512, 513, 1022, 1023, 1024, 1025, 2047, 2048, 2049, 4000]:
+    _n = bytes(0x61 + (j * 5 + _L) % 26 for j in range(_L))
+    INI_HOSTILE += [_n + b'=v\nb=<${' + _n + b'}>', b'b=<${' + _n + b'}>\nc=${b}', b'b=${%' + _n[1:] + b'}|', b'[s]\n' + _n[2:] + b'=w\n[t]\nb=${s.' + _n[2:] + b'}.']
 
 
 # ====================================================================== Apache-style documents
